@@ -9,6 +9,8 @@ from exactly_lib.util.either import Either
 ELEMENT = TypeVar('ELEMENT')
 ELEMENT_PRIME = TypeVar('ELEMENT_PRIME')
 
+_TOKEN_SEPARATORS = ' \t\r\n'
+
 
 class ElementsUntilEndOfLineParser2(Generic[ELEMENT], ParserFromTokens[List[ELEMENT]]):
     def __init__(self,
@@ -22,7 +24,7 @@ class ElementsUntilEndOfLineParser2(Generic[ELEMENT], ParserFromTokens[List[ELEM
         ret_val = []
 
         while not token_parser.is_at_eol:
-            if token_parser.remaining_part_of_current_line.strip() == defs.CONTINUATION_TOKEN:
+            if token_parser.remaining_part_of_current_line.strip(_TOKEN_SEPARATORS) == defs.CONTINUATION_TOKEN:
                 token_parser.consume_current_line_as_string_of_remaining_part_of_current_line()
                 continue
             if token_parser.has_valid_head_matching(defs.IS_STOP_AT_TOKEN):
